@@ -77,6 +77,11 @@ func (d *Datastore) SdcpbTransactionIntentToInternalTI(ctx context.Context, req 
 		ti.SetDeleteOnlyIntendedFlag()
 	}
 
+	// an intent that is deleted (or given up as an orphan) has no content: updates such a request carries are not stored
+	if req.GetDelete() || req.GetOrphan() {
+		return ti, nil
+	}
+
 	// convert the sdcpb.updates to tree.UpdateSlice
 	cacheUpdates, err := d.expandAndConvertIntent(ctx, req.GetIntent(), req.GetPriority(), req.GetUpdate())
 	if err != nil {
